@@ -134,3 +134,49 @@ pub proof fn lemma_euclid_scale(a: int, b: int, c: int, d: int, g: int, ddg: int
     let ar = rabs(right);
     assert(0 <= r0 * g < ar * g) by (nonlinear_arith) requires 0 <= r0 < ar, g > 0;
 }
+
+// ---- mixed rational / integer arms ---------------------------------------------------------------------------
+// an integer i is i/1 in lowest terms; 1/i (i >= 1) as well
+pub proof fn lemma_wf_int(i: int)
+    ensures wf_ratio(i, 1), is_gcd(1, rabs(i), 1), is_gcd(1, 1, rabs(i))
+{
+    lemma_one_divides(rabs(i));
+    lemma_one_divides(1);
+}
+pub proof fn lemma_wf_unit_frac(i: int)
+    requires i >= 1
+    ensures wf_ratio(1, i)
+{
+    lemma_one_divides(i);
+    lemma_one_divides(1);
+}
+
+// a/b in lowest terms  ==>  (a + b*k)/b in lowest terms
+pub proof fn lemma_addint_canonical(a: int, b: int, k: int)
+    requires wf_ratio(a, b)
+    ensures wf_ratio(a + b * k, b)
+{
+    let n = a + b * k;
+    lemma_one_divides(rabs(n));
+    lemma_one_divides(b);
+    assert forall|e: int| e > 0 && #[trigger] divides(e, rabs(n)) && divides(e, b) implies divides(e, 1) by {
+        if n < 0 { lemma_divides_neg(e, -n); }
+        assert(divides(e, n));
+        // a == (-k) * b + n
+        lemma_divides_lincomb(e, b, n, -k);
+        assert((-k) * b + n == a) by (nonlinear_arith) requires n == a + b * k;
+        assert(divides(e, a));
+        if a < 0 { lemma_divides_neg(e, a); }
+        assert(divides(e, rabs(a)) && divides(e, b));
+    }
+    if n == 0 {
+        // b divides a
+        assert(a == (-k) * b) by (nonlinear_arith) requires 0 == a + b * k;
+        lemma_divides_intro(b, -k, a);
+        if a < 0 { lemma_divides_neg(b, a); }
+        lemma_divides_intro(b, 1, b);
+        assert(divides(b, rabs(a)) && divides(b, b));
+        assert(divides(b, 1));
+        lemma_divides_one(b);
+    }
+}
